@@ -138,6 +138,9 @@ def run_property(prop, tier, seed, only=None, workers=None, write_evidence=True)
         j.params = dict(j.params, _known_ids=known_ids)
     if only:
         jobs = [j for j in jobs if only in j.name]
+        if not jobs:
+            print("%s: --only %r selects no job -> inconclusive" % (prop, only))
+            return 2
     nworkers = workers or min(16, max(1, len(jobs)))
     jobs_sorted = sorted(jobs, key=lambda j: -j.cost)
     results = []
